@@ -8,3 +8,4 @@ pub mod schema_mut;
 pub mod operation;
 pub mod opmutate;
 pub mod opfixture;
+pub mod adversary;
